@@ -54,9 +54,35 @@ def construction_order(order, names):
     print("C11ORDER " + json.dumps(out), flush=True)
 
 
+def multi_env(names):
+    """digests of reset() and iteration() with num_envs = 2 and 4 (the vmapped collection branch): compared across processes that differ in the number
+    of host devices JAX sees"""
+    from props.C11 import callback_sets, configs, harness_env_policy
+    out = {"devices": jax.local_device_count()}
+    for aname, (cls, kw) in configs().items():
+        if names and aname not in names:
+            continue
+        for E in (2, 4):
+            k2 = dict(kw, num_envs=E)
+            if "buffer_size" in k2:
+                k2["buffer_size"] = 4 * E
+            algo = cls(**k2)
+            env, mkpol = harness_env_policy(aname)
+            pol = mkpol()
+            cb = callback_sets()["none"]
+            with stubs.prng_stubs():
+                tr0 = trace(lambda env, pol, k: algo.reset(env, pol, key=k, callback=cb), env, pol, jr.key(0), argnames=["env", "pol", "key"])
+                st = eqx.filter_eval_shape(lambda k: algo.reset(env, pol, key=k, callback=cb), jr.key(0))
+                tr = trace(lambda st, k: algo.iteration(st, key=k, callback=cb), st, jr.key(0), argnames=["st", "key"])
+            out[f"{aname}(E={E})"] = digest(tr0) + digest(tr)
+    print("C11MULTI " + json.dumps(out), flush=True)
+
+
 def main():
     if len(sys.argv) > 2 and sys.argv[1] == "--construction-order":
         return construction_order(sys.argv[2], sys.argv[3:])
+    if len(sys.argv) > 1 and sys.argv[1] == "--multi-env":
+        return multi_env(sys.argv[2:])
     from props.C11 import callback_sets, setups
     out = {}
     names = sys.argv[1:]
